@@ -22,7 +22,7 @@ type wblockT struct {
 	Fam    string        `json:"fam"`
 	Block  time.Duration `json:"block"`
 	StartB time.Duration `json:"start_b"`
-	Mode   string        `json:"mode"` // silence | cancel | response
+	Mode   string        `json:"mode"` // silence | cancel | response | close (Close is called at At, while A is still parked)
 	At     time.Duration `json:"at"`   // instant of the cancel / of the response
 	Cfg    int           `json:"cfg"`
 }
@@ -37,16 +37,20 @@ func judgeWBlock(r *mon.Rec, t *testing.T, sc wblockT) {
 	xidA, xidB := uint32(0x00a0a0a0), uint32(0x00b0b0b1)
 	var atB, atA time.Duration
 	var errB, errA error
-	var gotB, retB, retA, closed bool
+	var gotB, retB, retA, closed, closeRet bool
+	var closeAt time.Duration
 	var respB cli.Resp
 	pan, val, st := mon.Guard(func() {
 		synctest.Test(t, func(t *testing.T) {
 			conn := sconn.New(0)
 			first := true
 			conn.OnWrite = func(w sconn.Write) {
-				if first { // A's first transmission: parked inside WriteTo
+				if first { // A's first transmission: parked inside WriteTo (until the connection is closed, at the latest)
 					first = false
-					time.Sleep(sc.Block)
+					select {
+					case <-time.After(sc.Block):
+					case <-conn.Done():
+					}
 				}
 			}
 			c, e := f.NewCfg(conn, T, N, sc.Cfg)
@@ -80,6 +84,17 @@ func judgeWBlock(r *mon.Rec, t *testing.T, sc wblockT) {
 			case "response":
 				time.Sleep(sc.At - time.Since(start))
 				conn.Inject(sconn.Datagram{B: f.Datagram("matching", xidB, 1, f.AcceptType()), From: dest, Nonce: 1, Class: "matching"})
+			case "close":
+				time.Sleep(sc.At - time.Since(start))
+				cdone := make(chan struct{})
+				go func() {
+					c.Close()
+					closeAt = time.Since(start)
+					closeRet = true
+					close(cdone)
+				}()
+				synctest.Wait()
+				_ = cdone
 			}
 			synctest.Wait()
 			time.Sleep(sc.Block + 20*T)
@@ -115,6 +130,27 @@ func judgeWBlock(r *mon.Rec, t *testing.T, sc wblockT) {
 		return
 	}
 	wantAt, what := sc.StartB+budget, "noresp"
+	if sc.Mode == "close" {
+		// Close does not wait for a transmission in flight: it returns at once, and both calls end there
+		if !closeRet || closeAt != sc.At {
+			bad("close-held-up", "Close called at %v returned=%v at %v", sc.At, closeRet, closeAt)
+			return
+		}
+		if sc.At < wantAt {
+			wantAt = sc.At
+		}
+		if atB != wantAt || !f.IsNoResponse(errB) && errB == nil {
+			bad("held-up", "call B returned at %v with err=%v, expected it to end at %v", atB, errB, wantAt)
+			return
+		}
+		if atA > sc.At || errA == nil {
+			bad("blocked-call", "call A, parked in its write when Close was called at %v, returned at %v with err=%v", sc.At, atA, errA)
+			return
+		}
+		r.Shape(fmt.Sprintf("wblock/%s/%v/%v/%s", sc.Fam, sc.Block, sc.StartB, sc.Mode), true)
+		r.Count("wblock.scenarios", 1)
+		return
+	}
 	switch sc.Mode {
 	case "cancel":
 		if sc.At < wantAt {
@@ -163,6 +199,7 @@ func wblockGrid() []wblockT {
 			for _, sb := range []time.Duration{0, T / 3, 2 * T} {
 				out = append(out, wblockT{true, fm, block, sb, "silence", 0, len(out) % cli.NCfg})
 				for _, at := range []time.Duration{sb + 1, sb + T/2, sb + T + T/2} {
+					out = append(out, wblockT{true, fm, block, sb, "close", at, len(out) % cli.NCfg})
 					out = append(out, wblockT{true, fm, block, sb, "cancel", at, len(out) % cli.NCfg})
 					out = append(out, wblockT{true, fm, block, sb, "response", at, len(out) % cli.NCfg})
 				}
